@@ -10,7 +10,11 @@
 //   fudp <4|6> <D|U:0:<atts>:0:<atts>>    announceUDP of one family against the local UDP tracker
 //   fhttp <4|6> <fam> <raw>               announceHTTP of one family against the local HTTP tracker
 //   audp <now> <f4> <f6>                  (*UDP).Announce
+//   caudp <now> <f4> <f6> <late>          the same with blocking peer callbacks and the two exchanges
+//                                         interleaved: family <late> receives its replies while the
+//                                         other one is still parsing its announce reply
 //   ahttp <now> <proxy> <f4> <f6> <last> <raw4> <raw6>   (*HTTP).Announce
+//   tick <perm> <tiers>                   tor.trackerAnnounce, the tier walk (see tier.go)
 // <fam> = T:<errclass> | R:<failure hex>:<retry>:<interval>:<dec1>:<dec2>:<peers6 hex>  (decoded
 // fields of the served body, obtained with zeebo/bencode — the decoder is a parameter of the
 // model); <raw> = hang | <status>.<body hex> is what the server really sends (ignored by the model).
@@ -73,6 +77,7 @@ type H struct {
 	haveCon bool
 	lastV   int64
 	lastGap int64
+	conc    func(col *collector) // concurrent mode: orchestrates the blocked callbacks of the next Announce
 	texts   map[string]string // error texts served to this tracker -> class
 	eekBad  bool // the unrepaired panic("eek") is present: keep it out of real goroutines
 }
@@ -535,12 +540,26 @@ func httpStatusText(c int) string {
 type collector struct {
 	mu    sync.Mutex
 	peers []netip.AddrPort
+	// concurrent mode: every callback announces itself on ev and then blocks until release is
+	// closed — as the real callback blocks on the torrent's event channel
+	ev      chan netip.AddrPort
+	release chan struct{}
 }
 
 func (c *collector) f(a netip.AddrPort) bool {
 	c.mu.Lock()
 	c.peers = append(c.peers, a)
 	c.mu.Unlock()
+	if c.release != nil {
+		select {
+		case c.ev <- a:
+		default:
+		}
+		select {
+		case <-c.release:
+		case <-time.After(10 * time.Second):
+		}
+	}
 	return true
 }
 func (c *collector) keys(zone bool) []string {
@@ -762,6 +781,10 @@ func (h *H) runAnnounce(V int64, proxy string, hitsOf func() int) annRun {
 	h.syncAt(V)
 	before := tracker.VerifGet(h.tr).Time
 	col := &collector{}
+	if h.conc != nil {
+		col.ev, col.release = make(chan netip.AddrPort, 1024), make(chan struct{})
+		go h.conc(col)
+	}
 	var res annRun
 	res.col = col
 	w0 := time.Now()
@@ -853,7 +876,15 @@ func (h *H) afterAnnounce(V int64, res annRun, e4, e6 famExp, wasLocked bool, sh
 	}
 }
 
-func (h *H) opAudp(V int64, s4, s6 udpScript, tag string) {
+// opAudp: (*UDP).Announce.  late = 4 or 6 selects the concurrent mode ("caudp"): the peer
+// callbacks block; the tracker of family `late` withholds its first reply until the other
+// family's exchange sits in its first callback (mid-parse of its announce reply), then the late
+// exchange runs to its own first callback, and only then are all callbacks released.
+func (h *H) opAudp(V int64, s4, s6 udpScript, tag string, late ...int) {
+	lateFam := 0
+	if len(late) > 0 {
+		lateFam = late[0]
+	}
 	// a family that resolves always dials; give it something to hear at once
 	refuse := [][]byte{{0, 0, 0, 1, 0, 0, 0, 0, 0, 0, 0, 0, 0, 0, 0, 0}}
 	if !h.hasFam(4) {
@@ -867,6 +898,9 @@ func (h *H) opAudp(V int64, s4, s6 udpScript, tag string) {
 		s6 = udpScript{dial: true, connect: refuse}
 	}
 	op := fmt.Sprintf("audp %d %s %s", V, s4.tok(), s6.tok())
+	if lateFam != 0 {
+		op = fmt.Sprintf("caudp %d %s %s %d", V, s4.tok(), s6.tok(), lateFam)
+	}
 	if h.kind != "udp" {
 		h.c.Emit(op, "not-udp")
 		return
@@ -890,11 +924,59 @@ func (h *H) opAudp(V int64, s4, s6 udpScript, tag string) {
 	h.ne.u4.set(s4.connect, s4.announce)
 	h.ne.u6.set(s6.connect, s6.announce)
 	wasLocked := tracker.VerifGet(h.tr).Locked
+	if lateFam != 0 {
+		lateSrv, earlySrv := h.ne.u6, h.ne.u4
+		lateExp := udpExpect(s6.dial, 16, s6.connect, s6.announce)
+		earlyExp := udpExpect(s4.dial, 4, s4.connect, s4.announce)
+		if lateFam == 4 {
+			lateSrv, earlySrv = h.ne.u4, h.ne.u6
+			lateExp, earlyExp = earlyExp, lateExp
+		}
+		hold := make(chan struct{})
+		lateSrv.mu.Lock()
+		lateSrv.hold = hold
+		lateSrv.mu.Unlock()
+		nLate := len(s6.connect) + len(s6.announce)
+		if lateFam == 4 {
+			nLate = len(s4.connect) + len(s4.announce)
+		}
+		h.conc = func(col *collector) {
+			// 1. the early exchange reaches its first callback (or delivers nothing)
+			if len(earlyExp.peers) > 0 {
+				select {
+				case <-col.ev:
+				case <-time.After(500 * time.Millisecond):
+				}
+			} else {
+				for i := 0; i < 50 && earlySrv.nsent() == 0; i++ {
+					time.Sleep(200 * time.Microsecond)
+				}
+				time.Sleep(500 * time.Microsecond)
+			}
+			// 2. now the late tracker answers; its exchange receives its replies while the
+			//    early one is still parsing
+			close(hold)
+			if len(lateExp.peers) > 0 {
+				select {
+				case <-col.ev:
+				case <-time.After(500 * time.Millisecond):
+				}
+			} else {
+				for i := 0; i < 100 && lateSrv.nsent() < nLate; i++ {
+					time.Sleep(200 * time.Microsecond)
+				}
+				time.Sleep(500 * time.Microsecond)
+			}
+			// 3. everybody may go on
+			close(col.release)
+		}
+	}
 	res := h.runAnnounce(V, "", func() int {
 		a, _ := h.ne.u4.stats()
 		b, _ := h.ne.u6.stats()
 		return a + b
 	})
+	h.conc = nil
 	if res.hung || res.panicS != "" {
 		h.c.Emit(op, "panic")
 		h.c.Violate("panic:Announce:udp:"+shape, res.panicS+fmt.Sprint(" hung=", res.hung), h.c.Case())
@@ -1013,7 +1095,7 @@ func (h *H) replayLine(l string) {
 		return
 	}
 	i64 := func(s string) int64 { v, _ := strconv.ParseInt(s, 10, 64); return v }
-	if h.tr == nil && f[0] != "new" && f[0] != "rr" && f[0] != "fudp" {
+	if h.tr == nil && f[0] != "new" && f[0] != "rr" && f[0] != "fudp" && f[0] != "tick" {
 		h.opNew("http", false, "dual")
 	}
 	switch {
@@ -1047,8 +1129,12 @@ func (h *H) replayLine(l string) {
 		h.opFhttp(int(i64(f[1])), parseRawTok(f[3]), "replay")
 	case f[0] == "audp" && len(f) == 4:
 		h.opAudp(i64(f[1]), parseUdpTok(f[2]), parseUdpTok(f[3]), "replay")
+	case f[0] == "caudp" && len(f) == 5 && (f[4] == "4" || f[4] == "6"):
+		h.opAudp(i64(f[1]), parseUdpTok(f[2]), parseUdpTok(f[3]), "replay", int(i64(f[4])))
 	case f[0] == "ahttp" && len(f) == 8:
 		h.opAhttp(i64(f[1]), f[2] == "1", parseRawTok(f[6]), parseRawTok(f[7]), int(i64(f[5])), "replay")
+	case f[0] == "tick" && len(f) == 3:
+		h.opTick(parseTierTok(f[2]), false, f[1])
 	default:
 		h.c.Emit(l, "bad-op")
 	}
